@@ -1,4 +1,5 @@
 import TcVerif.Driver.Hist
+import TcVerif.Driver.Judge
 
 open Tc.Driver
 
@@ -14,11 +15,21 @@ partial def loopHist (h : IO.FS.Stream) (out : IO.FS.Stream) (st : HState) : IO 
       out.putStrLn o
     loopHist h out st'
 
+partial def loopJudge (h : IO.FS.Stream) (out : IO.FS.Stream) (c : JCase) : IO Unit := do
+  let line ← h.getLine
+  if line.isEmpty then
+    for o in flushCase c do out.putStrLn o
+    return ()
+  let (c', outs) := judgeLine c (line.dropEndWhile (· == '\n')).toString
+  for o in outs do out.putStrLn o
+  loopJudge h out c'
+
 def main (args : List String) : IO UInt32 := do
   let stdin ← IO.getStdin
   let stdout ← IO.getStdout
   match args with
   | ["model", "hist"] => loopHist stdin stdout {}; return 0
+  | ["judge", "hist"] => loopJudge stdin stdout {}; return 0
   | _ =>
     IO.eprintln "usage: tcmodel model <family> < ops.txt"
     return 2
